@@ -41,8 +41,9 @@ def P(name, nodes, inp, out, runs=None, tags=(), **extra):  # noqa: N802
     return normalise(prog)
 
 
-def R(plan=None, recreq=None, inp=None, recfalsy=(), plan_it=None):  # noqa: N802
-    return dict(input=inp or {'x': 'tokA'}, plan=plan or {}, recreq=recreq or {}, recfalsy=list(recfalsy), plan_it=plan_it or {})
+def R(plan=None, recreq=None, inp=None, recfalsy=(), plan_it=None, recnone=None):  # noqa: N802
+    return dict(input=inp or {'x': 'tokA'}, plan=plan or {}, recreq=recreq or {}, recfalsy=list(recfalsy), plan_it=plan_it or {},
+                recnone=recnone or {})
 
 
 def variants(prog, runs_list, suffixes=None):
@@ -62,6 +63,7 @@ def normalise_run(r):
     r.setdefault('recreq', {})
     r.setdefault('recfalsy', [])
     r.setdefault('plan_it', {})
+    r.setdefault('recnone', {})
     return r
 
 
@@ -446,6 +448,11 @@ def rec_programs():
              N('D', I('p1', 'M')), N('O', RC('p1', 'S', 'D', 3), I('p2', 'UP'), I('p3', 'SIDE'))]
     out += variants(P('rec_side_input', nodes, 'A', 'O', tags=['rec']),
                     [[R(recreq={'D': 2})], [R(recreq={'D': 0})]], ['it2', 'it0'])
+    # next_iteration(token) in one iteration, next_iteration(None) in the following one: the start node then runs
+    # WITHOUT additional_data (and so with the arguments of its very first execution: invoked twice with them)
+    nodes = [N('A'), N('S', I('p1', 'A')), N('D', I('p1', 'S'), use_default=True), N('O', RC('p1', 'S', 'D', 2))]
+    out += variants(P('rec_none_payload', nodes, 'A', 'O', tags=['rec']),
+                    [[R(recreq={'D': 2}, recnone={'D': [2]})]], ['token_then_none'])
     # the payload of next_iteration is falsy (0): it is still a payload
     nodes = [N('A'), N('S', I('p1', 'A')), N('D', I('p1', 'S')), N('O', RC('p1', 'S', 'D', 1))]
     out += variants(P('rec_falsy_payload', nodes, 'A', 'O', tags=['rec']),
